@@ -514,6 +514,7 @@ class DocGen:
         parts = [outer, InlineFrag(impl, [], [inner])]
         rng.shuffle(parts)
         selset.extend(parts)
+        self.doc.hetero = getattr(self.doc, "hetero", 0) + 1      # merged field nodes now differ from list item to list item
 
     def _repeatable(self, outer, parent):
         """Outer field selections that mean the very same field (name, arguments, type) on `parent`."""
